@@ -20,13 +20,18 @@
  *     raise_strict busy-waits without yielding its kernel thread: ONE fiber raises in strict
  *     mode, and on a single kernel thread it uses `s` only.
  *
- *  y = yield in both; z = final rendez-vous (appended to every fiber by the generator).  */
+ *  y = yield in both.
+ *
+ * Fibers are created JOINABLE and never joined, so a finished fiber (and its list node) is
+ * not freed while raises are still running: fiber_multi_signal_raise reads head->next of a
+ * possibly stale head (the TODO in fiber_signal.h); the documented assumption is that fibers
+ * are not freed meanwhile (with detached fibers the harness did observe that read returning
+ * recycled heap contents; the CAS2 that follows fails because the counter moved on).  */
 #include "rtcommon.h"
 #include "fiber_signal.h"
 
 static fiber_multi_signal_t ms;
 static volatile long tokens;
-static volatile int arrived;
 
 static int try_take(void) {
   long v = __atomic_load_n(&tokens, __ATOMIC_ACQUIRE);
@@ -86,19 +91,24 @@ static void do_op(int t, const char* op) {
     case 'y':
       fiber_yield();
       break;
-    case 'z':
-      /* end-of-script rendez-vous: keeps every fiber (and its list node) alive until all
-       * raises are over — fiber_multi_signal_raise reads head->next of a possibly stale
-       * head (the TODO in fiber_signal.h); the documented assumption is that fibers are
-       * not freed meanwhile.  Not part of the test: unregistered counter. */
-      __sync_fetch_and_add(&arrived, 1);
-      while (arrived < vh_script.nfibers) {
-        fiber_yield();
-        vr_relax();
-      }
-      break;
   }
   (void)t;
+}
+
+/* vh_rt_run of rtcommon.h without the fiber_detach */
+VH_NOINSTR static void ms_rt_run(vh_op_fn fn) {
+  vh_do_op = fn;
+  for (int t = 0; t < vh_script.nfibers; t++) {
+    vh_fibers[t] = fiber_create_no_sched(65536, vh_fiber_main, (void*)(long)t);
+    vh_reg_fiber(vh_fibers[t], t);
+  }
+  vr_note("spawn %d", vh_script.nfibers);
+  for (int t = 0; t < vh_script.nfibers; t++) fiber_manager_schedule(fiber_manager_get(), vh_fibers[t]);
+  while (vh_done_count < vh_script.nfibers) {
+    fiber_yield();
+    vr_relax();
+  }
+  vr_set_done();
 }
 
 VH_NOINSTR int main(int argc, char** argv) {
@@ -111,6 +121,6 @@ VH_NOINSTR int main(int argc, char** argv) {
   vr_reg(&ms, 16, "ms");
   vr_reg((void*)&tokens, 8, "tokens");
   vr_note("init multisignal %d", k);
-  vh_rt_run(k, do_op, 0);
+  ms_rt_run(do_op);
   vr_finish("OK");
 }
